@@ -17,7 +17,7 @@ class Obj:
 
 @rt.native
 class Profile:
-    """stands for the bytes of one complete PROFRS document: server of origin + DTPROFUP (an integer day number)"""
+    """stands for the bytes of one complete PROFRS document: server of origin + DTPROFUP (a date-time, possibly symbolic)"""
 
     def __init__(self, server, date, tag):
         self.server, self.date, self.tag = server, date, tag
@@ -103,8 +103,8 @@ def h_step(ctx, behaviour):
     fs, client = setup(ctx, log)
     key = cache_key("O", "F")
     has_cache = ctx.bool("cache_present")
-    d0 = ctx.int("d0", 0, 50000)
-    d1 = ctx.int("d1", 0, 50000)
+    d0 = ctx.datetime("d0", 2000, 2030, utils.UTC)          # DTPROFUP of the cached profile
+    d1 = ctx.datetime("d1", 2000, 2030, utils.UTC)          # DTPROFUP of the profile the server sends
     errcode = ctx.int("errcode", 2, 20000)
     old = Profile("http://s1", d0, "old")
     if has_cache:
@@ -144,8 +144,8 @@ def h_crash(ctx):
     fs, client = setup(ctx, log)
     key = cache_key("O", "F")
     has_cache = ctx.bool("cache_present")
-    old = Profile("http://s1", 10, "old")
-    new = Profile("http://s1", 20, "new")
+    old = Profile("http://s1", datetime.datetime(2020, 1, 5, 8, tzinfo=utils.UTC), "old")
+    new = Profile("http://s1", datetime.datetime(2020, 1, 5, 12, tzinfo=utils.UTC), "new")
     if has_cache:
         fs.files[key] = old
     res, sent, exc = one_call(ctx, client, log, new)
@@ -190,7 +190,7 @@ def h_interleave(ctx):
     # extract the write-side steps of one call from the real code
     log = []
     fs, client = setup(ctx, log)
-    one_call(ctx, client, log, Profile("http://s1", 20, "A"))
+    one_call(ctx, client, log, Profile("http://s1", datetime.datetime(2020, 1, 5, 12, tzinfo=utils.UTC), "A"))
     steps = [e[0] for e in log if e[0] in ("open", "write", "replace") and (e[0] != "open" or "w" in e[2])]
     ctx.observe("steps", steps)
     na = nb = 0
@@ -237,7 +237,7 @@ def h_owner(ctx):
     same_org = ctx.bool("same_org_fid")
     log = []
     fs, c1 = setup(ctx, log, org=None, fid=None, url="http://s1")
-    p1 = Profile("http://s1", 10, "s1")
+    p1 = Profile("http://s1", datetime.datetime(2020, 1, 5, 8, tzinfo=utils.UTC), "s1")
     one_call(ctx, c1, log, p1)
     c2 = OFXClient("http://s2", org=None if same_org else "O2", fid=None if same_org else "F2")
     res, sent, exc = one_call(ctx, c2, log, "UPTODATE")
@@ -266,6 +266,7 @@ def instances(tier, seed):
 
     def mk(name, h, params, **opts):
         opts.setdefault("wall_s", 300)
+        opts.setdefault("timeout_ms", 30000)
         out.append(dict(name=name, harness=h, fn=HARNESSES[h], params=params, opts=opts))
     for b in BEHAVIOURS:
         mk(f"step[{b}]", "step", dict(behaviour=b))
